@@ -91,13 +91,15 @@ func (op *rop) tok() string {
 		return op.code + " " + r + " " + op.key.String()
 	case "mset":
 		return "mset " + r + " " + op.key.String() + " " + op.argTok()
+	case "merge":
+		return "merge " + r + " " + op.argTok()
 	}
 	return op.code + " " + r // range getunk valid llen lappm lnew lvalid mlen mnewv mrange mvalid
 }
 
 func isWriteOp(code string) bool {
 	switch code {
-	case "set", "clear", "mut", "setunk", "lset", "lapp", "lappm", "ltrunc", "mset", "mclear", "mmut":
+	case "set", "clear", "mut", "setunk", "lset", "lapp", "lappm", "ltrunc", "mset", "mclear", "mmut", "reset", "merge":
 		return true
 	}
 	return false
@@ -240,6 +242,9 @@ type rsession struct {
 	propID  string // the property a difference between F and the references is reported under
 	noStop  bool   // nil mode: a step the references disagree on does not end the history
 	softRef bool   // nil elements: only S can hold the same value; differences are counted, not reported
+	viewDiv []bool // per handle: the two references have disagreed on what is read through it: unspecified from then on
+	swept   bool   // the handles were re-read after the last step
+	noModel bool   // aliasing histories: implementation-side comparison only, no case line for the model
 }
 
 func fieldIndexOf(mi *msgInfo, fd protoreflect.FieldDescriptor) int {
@@ -316,6 +321,8 @@ func (s *rsession) apply(x *rimpl, op *rop) (h interface{}, out *outv) {
 			return nil, outUnit
 		case "valid":
 			return nil, outBool(m.IsValid())
+		case "reset", "merge":
+			return nil, s.applyLib(x, op)
 		case "which":
 			od := realOneofs(hi.mi.md)[op.f]
 			fd := m.WhichOneof(od)
